@@ -7,7 +7,9 @@ DRIVER = os.path.join(LEAN_DIR, ".lake", "build", "bin", "driver")
 VALIDCHECK = os.path.join(LEAN_DIR, ".lake", "build", "bin", "validcheck")
 REPO = os.environ.get("CMINX_REPO", "/repo")
 REPO_SRC = os.path.join(REPO, "src")
-EVIDENCE_DIR = os.path.join(VERIF, "evidence")
+# evidence describes /repo itself: a run against another tree (CMINX_REPO=<scratch worktree with a seeded change>, tools/eval_*.py,
+# tools/automutate.py) writes its evidence next to that tree instead, so that /verif/evidence only ever holds runs on /repo
+EVIDENCE_DIR = os.path.join(VERIF, "evidence") if os.path.realpath(REPO) == "/repo" else os.path.join(tempfile.gettempdir(), "cmxv_evidence_" + hashlib.sha1(REPO.encode()).hexdigest()[:10])
 REPLAY_DIR = os.path.join(VERIF, "replays")
 KNOWN_FINDINGS = os.path.join(VERIF, "known-findings.txt")
 STD_AXIOMS = {"propext", "Classical.choice", "Quot.sound"}
